@@ -23,7 +23,7 @@ P("C17", [("V1", None), ("V13", None)],
   "(AntiUnifier::aggregate_tys / merge_into_guidance) is not reached; argument lists and constants are abstract in V13.",
   "contract-based deductive verification: Verus on mechanically extracted function text")
 
-P("C27", [("K5", None)],
+P("C27", [("K5", None), ("K5L", None)],
   "model_checking",
   "Kani/CBMC on the real in_place.rs with drop-counting elements: for every failure position (or none), every capacity slack, "
   "identical / different / zero-sized layouts and the box variant, each element is dropped exactly once on failure and never on success, "
